@@ -543,7 +543,9 @@ func TestC07_R_ImportedPseudoFilesMatchReference(t *testing.T) {
 
 // C09: encoding is a function of the message: messages encoded by several goroutines at once come out as they do alone.
 func TestC09_R_ConcurrentEncode(t *testing.T) {
-	const G, N = 8, 3000
+	// more goroutines than processors, and long enough for many time slices to end inside an encode: state shared between
+	// calls (a pooled scratch buffer, say) is only disturbed when a goroutine is descheduled in the middle of one
+	const G, N = 64, 150000
 	type job struct {
 		node data.UnixFSData
 		want []byte
